@@ -19,6 +19,45 @@ CHECKS = {
             'run without the step. Finite product explored completely per name set; name sets sampled.',
             'Trusted: the 20-line selector model; the effect on a selected resource is taken from the '
             'same processor run alone (selector semantics only are judged here).', '3/C10'),
+    'C11': ('pipeline-lab', 'exploration',
+            'runtime monitor: 40-line reference join (dict of rendered key -> source rows) compared with '
+            'the real join output; unordered parts by maximum bipartite matching',
+            'Generated source/target tables x key shapes x modes x 12 aggregates x source_delete x wildcard '
+            'x pre-existing target fields are run through the real join (incl. >10240 distinct keys to force '
+            'the on-disk index) and compared row by row with an independent reference join.',
+            'Trusted: the reference join and aggregate definitions (self-checked); string sum accepted in '
+            'either concatenation order; order of full-outer tail / deduplication output not judged.', '3/C11'),
+    'C12': ('pipeline-lab', 'exploration',
+            'runtime monitor: stable sorted() on exact typed keys (Decimal / code points) + permutation check '
+            'by row id + batch-size/cache-regime differential',
+            'Generated tables per named key class x key form x reverse x batch size x sizes below and above '
+            'the 10240-entry cache are sorted by the real sort_rows and compared with a stable reference '
+            'sort; every row carries an id so loss/duplication is visible.',
+            'Trusted: Python sorted() on exact keys. Known finding (float64 key collapse for >2^53 / '
+            'high-precision keys) is recorded by mechanism in known_findings.json.', '3/C12'),
+    'C14': ('pipeline-lab', 'exploration',
+            'runtime monitor: per-cell oracle = fresh tableschema Field.cast_value; expected rows / handler '
+            'call log / raised error derived per policy',
+            'Lexical tables mixing valid and invalid cells at first/middle/last rows and several fields are '
+            'run through set_type / validate in all forms and policies; emitted rows, handler calls and the '
+            'raised ProcessorError.cause (row, index) are compared with the oracle.',
+            'Trusted: tableschema Field.cast_value as "Table Schema\'s cast"; ignore policy may cast the '
+            'valid cells of a kept row.', '3/C14'),
+    'C15': ('pipeline-lab', 'exploration',
+            'runtime monitor: reference models of the six field processors (re.fullmatch semantics) vs real '
+            'output (schema order, row keys, values)',
+            'Generated tables with regex-metacharacter/prefix field names x pattern classes x every computed '
+            'operation x selectors; schema and rows of every resource are compared with independent models.',
+            'Trusted: the reference models (self-checked against PROCESSORS.md examples); undefined '
+            'operations over zero non-null values accept any outcome.', '3/C15'),
+    'C17': ('pipeline-lab', 'exploration',
+            'runtime monitor: reference filter / first-per-key dedup / row-major unpivot expansion with a '
+            'row-id and cell ledger',
+            'Generated tables x callable/equals/not_equals conditions x composite keys with nulls x unpivot '
+            'specs (literal/regex/back-reference/constant keys) compared with independent models; dedup is '
+            'also applied twice (idempotence).',
+            'Trusted: the reference models; unpivot patterns that can match the empty string are not '
+            'generated.', '3/C17'),
 }
 
 NOT_BUILT_REASON = 'check not built yet in this round (design in DESIGN.md section 3); no claim made'
